@@ -140,7 +140,9 @@ Section EncAgrees.
     - destruct (Z.eqb_spec d 0) as [->|Hd].
       + eexists _, _. split; [reflexivity|]. cbn beta iota. split; [split; [exact HI | reflexivity]|].
         cbn [seek_claim]. unfold EncAuth.epos. lia.
-      + unfold seek_target. destruct (Z.of_N (e_chunk s * CHUNK + e_cpos s) + d <? 0)%Z eqn:Et.
+      + destruct (2 ^ 63 <=? e_chunk s * CHUNK + e_cpos s).
+        { eexists _, _. split; [reflexivity|]. cbn beta iota. apply Hself. exact HI. }
+        unfold seek_target. destruct (Z.of_N (e_chunk s * CHUNK + e_cpos s) + d <? 0)%Z eqn:Et.
         * eexists _, _. split; [reflexivity|]. cbn beta iota. apply Hself. exact HI.
         * destruct (enc_seek_start_agrees s (Z.to_N (Z.of_N (e_chunk s * CHUNK + e_cpos s) + d)) HI) as (s' & r & He & Hr).
           exists s', r. split; [exact He|]. destruct r as [q'|e|c]; [|exact Hr..].
@@ -153,7 +155,11 @@ Section EncAgrees.
         { split; [eexists; exact HR'|]. split; assumption. }
         unfold enc_end.
         destruct (end_pos_of_inner CHUNK TAG (len w)) as [ep|e|c] eqn:Eep.
-        * unfold seek_target. destruct (Z.of_N ep + d <? 0)%Z eqn:Et.
+        * destruct (2 ^ 63 <=? ep).
+          { eexists _, _. split; [reflexivity|]. cbn beta iota. apply Hself. exact HI1. }
+          destruct (negb (i64_fits (Z.of_N ep + d))).
+          { eexists _, _. split; [reflexivity|]. cbn beta iota. apply Hself. exact HI1. }
+          unfold seek_target. destruct (Z.of_N ep + d <? 0)%Z eqn:Et.
           -- eexists _, _. split; [reflexivity|]. cbn beta iota. apply Hself. exact HI1.
           -- destruct (enc_seek_start_agrees _ (Z.to_N (Z.of_N ep + d)) HI1) as (s' & r & He & Hr).
              exists s', r. split; [exact He|]. destruct r as [q'|e|c]; [|exact Hr..].
